@@ -75,22 +75,24 @@ theorem parseSpaces_nodup {sp : Spaces} {n : Nat} {l : List Nat} (h : parseSpace
       exact List.nodup_nil
     · split at h
       · cases h
-      · rename_i hb
-        split at h
+      · split at h
         · cases h
-        · rename_i hd
-          simp only [Except.ok.injEq] at h
-          subst h
-          have hnd : li.Nodup := nodup_of_eraseDups_length li (by simpa using hd)
-          have hnn : ∀ i ∈ li, 0 ≤ i := by
-            intro i hi
-            by_contra hc
-            exact hb (Or.inl (List.any_eq_true.mpr ⟨i, hi, by simpa using (by omega : i < 0)⟩))
-          refine List.Nodup.map_on ?_ hnd
-          intro x hx y hy hxy
-          have := hnn x hx
-          have := hnn y hy
-          omega
+        · rename_i hb
+          split at h
+          · cases h
+          · rename_i hd
+            simp only [Except.ok.injEq] at h
+            subst h
+            have hnd : li.Nodup := nodup_of_eraseDups_length li (by simpa using hd)
+            have hnn : ∀ i ∈ li, 0 ≤ i := by
+              intro i hi
+              by_contra hc
+              exact hb (Or.inl (List.any_eq_true.mpr ⟨i, hi, by simpa using (by omega : i < 0)⟩))
+            refine List.Nodup.map_on ?_ hnd
+            intro x hx y hy hxy
+            have := hnn x hx
+            have := hnn y hy
+            omega
 
 /-- a duplicate-free `spaces` tuple within range is a permutation of the masked positions in axis order -/
 theorem perm_masked {n : Nat} {l : List Nat} (hnd : l.Nodup) (hlt : ∀ i ∈ l, i < n) :
@@ -251,7 +253,7 @@ theorem maskOf_length (n : Nat) (l : List Nat) : (maskOf n l).length = n := by s
     product of their volume factors — for ANY duplicate-free `spaces` tuple in any order -/
 theorem totalVolume_eq_fibre_sum [Field K] (subs : List (SubDom K)) (sp : Spaces) (l : List Nat) (V : K)
     (hp : parseSpaces sp subs.length = .ok l) (h : totalVolume subs sp = .ok V)
-    (hs : ∀ s ∈ subs, s.tv = none ∧ s.dvol ≠ .none) (o : Idx) :
+    (hs : ∀ s ∈ subs, VolConsistent s) (o : Idx) :
     V = sumOver (allIdx (sel true (maskOf subs.length l) (subs.map SubDom.size)))
           (fun c => prodOver l (fun i => dvolAt subs i (merge (maskOf subs.length l) o c))) := by
   obtain ⟨hlt, hints⟩ := parseSpaces_ok hp
@@ -273,8 +275,7 @@ theorem totalVolume_eq_fibre_sum [Field K] (subs : List (SubDom K)) (sp : Spaces
   apply prodOver_congr
   intro s hsel
   have hmem := sel_subset true _ _ s hsel
-  obtain ⟨htv, hdv⟩ := hs s hmem
-  exact subTV_eq_sum s htv hdv
+  exact (hs s hmem).2
 
 end Masked
 
@@ -305,7 +306,10 @@ theorem integrate_of_mean [Field K] [DecidableEq K] (f m : Fld K) (sp : Spaces) 
         | error e => simp only [hs] at hm; cases hm
         | ok s => exact ⟨s, rfl⟩
 
-theorem totalVolumeLoop_ok [Field K] (subs : List (SubDom K)) (hs : ∀ s ∈ subs, s.tv = none ∧ s.dvol ≠ .none) :
+theorem volConsistent_of_structured [Field K] (s : SubDom K) (htv : s.tv = none) (hdv : s.dvol ≠ .none) :
+    VolConsistent s := ⟨hdv, subTV_eq_sum s htv hdv⟩
+
+theorem totalVolumeLoop_ok [Field K] (subs : List (SubDom K)) (hs : ∀ s ∈ subs, VolConsistent s) :
     ∀ (l : List Nat) (res : K), (∀ i ∈ l, i < subs.length) →
       ∃ V, totalVolumeLoop subs (l.map Int.ofNat) res = .ok V := by
   intro l
@@ -316,15 +320,18 @@ theorem totalVolumeLoop_ok [Field K] (subs : List (SubDom K)) (hs : ∀ s ∈ su
     have hi : i < subs.length := hlt i (by simp)
     have hmem : subs.getD i default ∈ subs := by
       simp [List.getD_eq_getElem?_getD, List.getElem?_eq_getElem hi]
-    obtain ⟨htv, hdv⟩ := hs _ hmem
-    simp only [List.map_cons, totalVolumeLoop, pyGet_ofNat subs i hi, SubDom.totalVolume, htv]
-    cases hd : (subs.getD i default).dvol with
-    | none => exact absurd hd hdv
-    | scalar w => simp only []; exact ih _ (fun j hj => hlt j (by simp [hj]))
-    | vector w => simp only []; exact ih _ (fun j hj => hlt j (by simp [hj]))
+    obtain ⟨hdv, _⟩ := hs _ hmem
+    simp only [List.map_cons, totalVolumeLoop, pyGet_ofNat subs i hi, SubDom.totalVolume]
+    cases htv : (subs.getD i default).tv with
+    | some T => simp only []; exact ih _ (fun j hj => hlt j (by simp [hj]))
+    | none =>
+      cases hd : (subs.getD i default).dvol with
+      | none => exact absurd hd hdv
+      | scalar w => simp only []; exact ih _ (fun j hj => hlt j (by simp [hj]))
+      | vector w => simp only []; exact ih _ (fun j hj => hlt j (by simp [hj]))
 
 theorem totalVolume_ok [Field K] (subs : List (SubDom K)) (sp : Spaces) (l : List Nat)
-    (hp : parseSpaces sp subs.length = .ok l) (hs : ∀ s ∈ subs, s.tv = none ∧ s.dvol ≠ .none) :
+    (hp : parseSpaces sp subs.length = .ok l) (hs : ∀ s ∈ subs, VolConsistent s) :
     ∃ V, totalVolume subs sp = .ok V := by
   obtain ⟨hlt, hints⟩ := parseSpaces_ok hp
   rw [totalVolume_eq_loop, hints]
